@@ -150,4 +150,3 @@ func modelSummary(m string, max int) string {
 	}
 	return strings.Join(out, "\n")
 }
-
